@@ -981,6 +981,136 @@ def isolated_inner(nid, d, kw, prefix):
     return c2.inner[nid]
 
 
+class NotExpressible(Exception):
+    pass
+
+
+class RSpecOf:
+    """the outer call of a re-entry case in the spec language of the Lean model of the error
+    bookkeeping (Glom/Model/C20Reentry.lean): leaves with their outcome (evaluated here, on the real
+    glom, against the target they meet), specs with a scope of their own (dict / tuple / Spec /
+    Coalesce) over `both` / `andThen` / `orElse`, and re-entries made from a custom spec that
+    catches the inner failure and then evaluates `after`.  Everything else: NotExpressible."""
+
+    LEAVES = ('path', 'T', 'val', 'y', 'boom', 'sget')
+
+    def __init__(self):
+        self.labels = ['<none>']        # label id -> repr of the spec
+        self.errs = {}                  # error id -> class name
+        self.nerr = 0
+
+    def label(self, obj):
+        import glom.core as core
+        self.labels.append(core.bbrepr(obj).replace("\\'", "'"))
+        return len(self.labels) - 1
+
+    def conv(self, sj, target, kw, live, coalesced=False):
+        """-> (rspec json, ok?, value); `live`: the spec is reached at all (otherwise its leaves
+        are never evaluated and their outcome does not matter); `coalesced`: below a Coalesce, which
+        skips GlomErrors only -- the model's alternatives skip every failure, so no other exceptions"""
+        import glom
+        k = sj[0]
+        if k == 'boom' and coalesced:
+            raise NotExpressible('an exception a Coalesce does not skip')
+        obj = build(sj, Ctx(0))
+        if k in self.LEAVES:
+            lab = self.label(obj)
+            if not live:
+                return ['leaf', lab, ['ok']], True, None
+            try:
+                v = glom.glom(target, obj, **kw)
+            except Exception as e:
+                self.nerr += 1
+                self.errs[self.nerr] = exc_name(e)
+                return ['leaf', lab, ['err', self.nerr]], False, None
+            return ['leaf', lab, ['ok']], True, v
+        if k == 'spec':
+            lab = self.label(obj)
+            c, ok, v = self.conv(sj[1], target, kw, live, coalesced)
+            return ['sub', lab, c], ok, v
+        if k == 'dict':
+            lab = self.label(obj)
+            parts, ok_all = [], True
+            for key, sub in sj[1]:
+                c, ok, _ = self.conv(sub, target, kw, live and ok_all, coalesced)
+                parts.append(c)
+                ok_all = ok_all and ok
+            body = parts[-1]
+            for c in reversed(parts[:-1]):
+                body = ['both', c, body]
+            return ['sub', lab, body], ok_all, {}
+        if k == 'tuple':
+            lab = self.label(obj)
+            parts, ok_all, cur = [], True, target
+            for sub in sj[1]:
+                c, ok, v = self.conv(sub, cur, kw, live and ok_all, coalesced)
+                parts.append(c)
+                ok_all = ok_all and ok
+                cur = v
+            body = parts[-1]
+            for c in reversed(parts[:-1]):
+                body = ['andThen', c, body]
+            return ['sub', lab, body], ok_all, cur
+        if k == 'coalesce':
+            lab = self.label(obj)
+            parts, done, val = [], False, None
+            for sub in sj[1]:
+                c, ok, v = self.conv(sub, target, kw, live and not done, True)
+                parts.append(c)
+                if ok and not done:
+                    done, val = True, v
+            if len(sj) > 2:
+                parts.append(['pure'])
+                if not done:
+                    done, val = True, sj[2]
+            body = parts[-1]
+            for c in reversed(parts[:-1]):
+                body = ['orElse', c, body]
+            return ['coal', lab, body], done, val
+        if k == 'reenter':
+            d = sj[2]
+            if d['point'] != 'glomit' or d.get('after') is None:
+                raise NotExpressible('re-entry from a callable / without an evaluation afterwards')
+            lab = self.label(obj)
+            how = d['how']
+            ikw = {} if how == 'none' else kw
+            ic, iok, _ = self.conv(d['inner']['spec'], dec(d['inner']['target']), ikw, live, False)
+            if not iok and not d.get('catch', True):
+                raise NotExpressible('the failure of the inner call propagates')
+            ac, ok, v = self.conv(d['after'], target, kw, live, coalesced)
+            return ['reent', lab, {'none': 'isolated', 'user': 'isolated', 'copy': 'spec', 'run': 'spec',
+                                   'kwcopy': 'kw', 'kwrun': 'kw'}[how], ic, ac], ok, v
+        raise NotExpressible(k)
+
+
+_TRACE_LINE = re.compile(r'^ (\|*)([-+|\\X]) (.*)$')
+
+
+def trace_skeleton(text):
+    """the rendered trace as [depth, kind, text] lines: kind S (a spec), + (a spec with branches),
+    X (the error a branch ended with; text = its class); Target lines are left out"""
+    lines = text.splitlines()
+    try:
+        i = lines.index(' Target-spec trace (most recent last):')
+    except ValueError:
+        return None
+    out = []
+    for line in lines[i + 1:]:
+        m = _TRACE_LINE.match(line)
+        if not m:
+            break
+        bars, mark, rest = m.groups()
+        depth = len(bars)              # the mark stands in the column of the line's own level
+        if rest.startswith('Target: '):
+            continue
+        if rest.startswith('Spec: '):  # (`+` of a branching spec is overwritten by `\\` on the first line of a branch)
+            out.append([depth, 'S', rest[len('Spec: '):]])
+        else:
+            cls = rest.split(':', 1)[0].split('.')[-1]
+            out.append([depth, 'X', cls])
+    return out
+
+
 def run_reent(case, out, threads_payload, alone_ctxs):
     """one outer call whose spec makes re-entrant calls with access to the running scope.
     Observed: the outer call as it is (outcome = value, or class + full rendered message / trace);
@@ -1016,11 +1146,20 @@ def run_reent(case, out, threads_payload, alone_ctxs):
         seen = ctx.inner.get(nid)
         if seen is None:            # not reached: nothing to compare
             outs.append({'err': ['NotReached', 'the nested call did not run']})
-            payload[i + 1] = dict(payload[i + 1], alone=outs[-1])
+            payload[i + 1] = {'events': [], 'alone': outs[-1]}
         else:
             outs.append(seen[0])
     out['threads'] = payload
     out['impl'] = {'outs': outs, 'pcache': pc, 'tcache': tc, 'deadlock': False}
+    # the same call in the Lean model of the error bookkeeping, when its spec language has it
+    try:
+        conv = RSpecOf()
+        rs, ok, _ = conv.conv(outer['spec'], dec(outer['target']), kw, True)
+        out['rspec'] = {'spec': rs, 'labels': conv.labels, 'errs': [[k, v] for k, v in sorted(conv.errs.items())]}
+        if 'err' in o_real:
+            out['impl']['skeleton'] = trace_skeleton(o_real['err'][1])
+    except NotExpressible:
+        pass
     return out
 
 
@@ -1246,10 +1385,26 @@ class ReentGen:
         return call
 
 
+def expressible(call):
+    try:
+        RSpecOf().conv(call['spec'], dec(call['target']), call_kw(call), True)
+        return True
+    except NotExpressible:
+        return False
+
+
 def gen_reent(rng, tier, fresh):
     quick = tier == 'quick'
     for _ in range(420 if quick else 9000):
         yield {'mode': 'reent', 'calls': [ReentGen(rng, fresh()).case()], 'names': ['reent']}
+    # ... of which the Lean model of the error bookkeeping can express the outer call (its trace
+    # skeleton is compared with the implementation's)
+    for _ in range(150 if quick else 3000):
+        for _try in range(40):
+            call = ReentGen(rng, fresh()).case()
+            if expressible(call):
+                yield {'mode': 'reent', 'calls': [call], 'names': ['reent_modelled']}
+                break
 
 
 def rand_interleaving(rng, segs):
@@ -1428,8 +1583,58 @@ def focus(disagreements, facts_changed):
     return {}
 
 
+def shrink_spec(sj):
+    """specs with one local simplification (a wrapper replaced by one of its children, a chain step
+    or dict item or alternative dropped, the parts of a re-entry simplified), at any position"""
+    if not isinstance(sj, list) or not sj:
+        return
+    k = sj[0]
+    if k in ('dict',):
+        for key, v in sj[1]:
+            yield v
+        if len(sj[1]) > 1:
+            for i in range(len(sj[1])):
+                yield [k, sj[1][:i] + sj[1][i + 1:]] + sj[2:]
+        for i, (key, v) in enumerate(sj[1]):
+            for v2 in shrink_spec(v):
+                yield [k, sj[1][:i] + [[key, v2]] + sj[1][i + 1:]] + sj[2:]
+    elif k in ('tuple', 'coalesce'):
+        for v in sj[1]:
+            yield v
+        if len(sj[1]) > 1:
+            for i in range(len(sj[1])):
+                yield [k, sj[1][:i] + sj[1][i + 1:]] + sj[2:]
+        if len(sj) > 2:
+            yield sj[:2]
+        for i, v in enumerate(sj[1]):
+            for v2 in shrink_spec(v):
+                yield [k, sj[1][:i] + [v2] + sj[1][i + 1:]] + sj[2:]
+    elif k == 'spec':
+        yield sj[1]
+        for v2 in shrink_spec(sj[1]):
+            yield [k, v2]
+    elif k == 'reenter':
+        d = sj[2]
+        if d.get('after') is not None:
+            for a2 in ([['path', 'o.om']] if d['after'] != ['path', 'o.om'] else []) + list(shrink_spec(d['after'])):
+                yield [k, sj[1], dict(d, after=a2)]
+        for simple in (['path', 'p.nope'], ['path', 'p.q']):
+            if d['inner']['spec'] != simple and d['inner']['spec'][0] != 'path':
+                yield [k, sj[1], dict(d, inner=dict(d['inner'], spec=simple))]
+        for i2 in shrink_spec(d['inner']['spec']):
+            yield [k, sj[1], dict(d, inner=dict(d['inner'], spec=i2))]
+
+
 def shrink(case):
     base = {k: v for k, v in case.items() if not k.startswith('impl') and k != 'threads'}
+    if case['mode'] == 'reent':
+        call = case['calls'][0]
+        if call.get('scope'):
+            yield dict(base, calls=[{k: v for k, v in call.items() if k != 'scope'}])
+        for sp in shrink_spec(call['spec']):
+            if nested_ids(sp, []):                 # still a re-entry
+                yield dict(base, calls=[dict(call, spec=sp)])
+        return
     if case['mode'] == 'shared':
         n = len(case['targets'])
         if n > 2 and case.get('schedule') is not None:
